@@ -408,4 +408,15 @@ def selfcheck(quick):
         if not m or (cfg == "MC_Search_noplyguard.cfg" and "InvNoPanic" not in m):
             print("search bug variant %s did not fail as expected" % cfg)
             rc = 2
+    # the certificate judge: the harness pretends that every mate announcement was one move shorter than it was; TraceSearch must
+    # then REFUTE announcements (a refutation DAG that checks against Chess.tla), not accept them
+    run = Run("C11", "quick", "model_checking", replay=True)
+    h = vcommon.build_harness()
+    t, _ = run_matecerts(run, "C11", h, None, 24 if quick else 80, 3, 6, 150000, "selftest", shorter=1)
+    if t.get("mcert_refutations", 0) < 1 or not run.violations:
+        print("mate certificates: shortened announcements were not refuted (refutations=%s)" % t.get("mcert_refutations", 0))
+        rc = 2
+    for v in run.violations:
+        if v and os.path.exists(v[2]):
+            os.remove(v[2])
     return rc
